@@ -356,7 +356,7 @@ func (g *gen) jsonRequest(depth int) rscp.Message {
 		}
 		m.Value = s
 	case rscp.Timestamp:
-		sec := int64(g.pick(253402300799+62135596800)) - 62135596800
+		sec := g.r.Int63n(253402300799+62135596800) - 62135596800
 		m.Value = time.Unix(sec, []int64{0, 123456789, 999999999, 500000000}[g.pick(4)]).UTC()
 	case rscp.Float32:
 		f := math.Float32frombits(g.r.Uint32())
